@@ -44,6 +44,8 @@ class DocEngine:
         cfg["src_family"] = rng.weighted([("template", 3), ("sample", 5)], "src_family")
         if prop == "C10":
             cfg["p_clone"] = rng.choice([0.15, 0.3, 0.6], "p_clone")
+        if prop == "C15":
+            cfg["start_empty"] = rng.chance(0.3, "start_empty")
         if prop == "C13":
             # swarm: most insertions of a run go to a few focus families, so that the same
             # family sees named, unnamed, automatic and common insertions one after the other
@@ -151,6 +153,8 @@ class DocEngine:
             if self.twin is None and rng.chance(self.cfg.get("p_clone", 0.45), "clone?"):
                 return {"op": "clone_doc"}
             weights += [("clone_part", 2), ("clone_container", 1), ("twin_save_over_source", 1.5 if (self.twin is not None and self.sut.src.get("path") and self.sut.src["packaging"] == "zip") else 0)]
+        if self.prop == "C15" and cfg.get("start_empty") and len(self.stats.c) and self.stats.c.get("op:clear_body", 0) == 0 and self.stats.c.get("op:read", 0) == 0 and self._doc_type() == "text":
+            return {"op": "clear_body"}
         if self.prop == "C15":
             weights = [("read", 14), ("edit", 3), ("rich_para", 2), ("clear_body", 0.5), ("touch", 1), ("add_file", 0.5),
                        ("save", 1.5 if self.n_saves < cfg["max_saves"] else 0), ("reopen", 1.5 if self._reopenable() else 0)]
@@ -171,7 +175,7 @@ class DocEngine:
         if name == "touch":
             op["part"] = rng.choice(["content", "meta", "styles", "settings", "manifest"], "part")
         elif name == "edit":
-            op["kind"] = rng.choice(["para", "heading", "list", "table", "image", "meta_title", "meta_user", "meta_keyword", "style", "delete_last"], "ekind")
+            op["kind"] = rng.choice(["para", "heading", "list", "table", "image", "meta_title", "meta_user", "meta_keyword", "style", "delete_last"] + (["numlist", "numlist"] if self.prop == "C15" else []), "ekind")
             op["n"] = n
             subs = sorted(x for x in st.names() if "/" in x and x.rsplit("/", 1)[-1] in ("content.xml", "styles.xml") and not x.startswith("META-INF"))
             if subs and rng.chance(0.5, "subobj?"):
@@ -234,7 +238,9 @@ class DocEngine:
             op["displayed"] = rng.chance(0.5, "disp")
         elif name == "read":
             k = rng.choice([1, 1, 2, 3, 5], "nreads")
-            op["entries"] = [rng.choice(doc_reads.ENTRY_NAMES, "entry") for _ in range(k)]
+            # exports and string conversions carry the process-global context: drawn more often
+            heavy = [e for e in doc_reads.ENTRY_NAMES if e.startswith(("doc.to_markdown", "doc.get_formatted_text", "str(", "lists:", "body.inner_text", "tables: get_formatted", "tables: str"))]
+            op["entries"] = [rng.choice(heavy, "entry_h") if rng.chance(0.45, "heavy?") else rng.choice(doc_reads.ENTRY_NAMES, "entry") for _ in range(k)]
         elif name == "set_part_many":
             op["k"] = rng.choice([2, 5, 12, 16, 20, 30], "many_k")
             op["n"] = n
@@ -582,6 +588,18 @@ class DocEngine:
         dtype = self._doc_type()
 
         def do():
+            if kind == "numlist":
+                # a numbered list whose numbering comes from styles of this very document
+                from odfdo import Element as _E, ListItem as _LI
+                doc.insert_style(_E.from_tag('<text:list-style style:name="L1"><text:list-level-style-number text:level="1" style:num-format="1" style:num-suffix="."/></text:list-style>'), automatic=True)
+                doc.insert_style(_E.from_tag('<style:style style:name="P1" style:family="paragraph" style:list-style-name="L1"/>'), automatic=True)
+                lst = List()
+                for word in ("apples", "pears", f"plums {n}"):
+                    item = _LI()
+                    item.append(Paragraph(word, style="P1"))
+                    lst.append(item)
+                doc.body.append(lst)
+                return "content.xml"
             if kind in ("para", "heading", "list", "table", "image", "delete_last"):
                 body = doc.body
                 if kind == "delete_last":
@@ -1056,7 +1074,7 @@ class DocEngine:
             if can != self.canary0:
                 self._outcome = "read:global-state"
                 return [Violation("C15", "export-context-not-reset", "read:" + name, feats + (["read_raised"] if exc1 else []), None,
-                                  f"after this call a fresh little document exports differently in this process: {str(can)[:160]!r} vs {str(self.canary0)[:160]!r}")]
+                                  f"the module-global Markdown export context (odfdo.mixin_md.MD_GLOBAL) is left {can[0]} after this call (was {self.canary0[0]}): later string conversions of numbered lists count on from call to call")]
         self._outcome = "read:ok"
         return []
 
